@@ -13,7 +13,7 @@ Section CoreRun.
   Variable AND : bool.
 
   Lemma do_action_frozen s l a : frozen mx (do_action q blanks AND s l a) = frozen mx s.
-  Proof. destruct a as [? ?|? ?|? ?|? ?|? ?|? ?|g]; cbn; try (destruct (rev _)); cbn; auto. destruct g; cbn; try (destruct (dget _ _ _) as [[]|]); try (destruct (is_blank_text _)); try (destruct (none_like _)); cbn; auto. Qed.
+  Proof. destruct a as [? ?|? ?|? ?|? ?|? ?|? ?|g]; cbn; try (destruct (rev _)); cbn; auto. destruct g; cbn; try (destruct (dget _ _ _) as [[]|]); try (destruct (is_blank_text _)); try (destruct (none_like _)); try (destruct (Assign.do_assignment _ _ _ _) as [[[|] ?]|]); cbn; auto. Qed.
   Lemma eval_frozen c s l : frozen mx (fst (eval q blanks AND c s l)) = frozen mx s.
   Proof.
     destruct c as [b|a|b a|g]; cbn; auto using do_action_frozen.
@@ -78,13 +78,14 @@ Section CoreRun.
 
   Lemma do_agg_frame s l g d : writes g <> Some d -> forall key, dget (x mx (fst (do_agg q blanks AND s l g))) d key = dget (x mx s) d key.
   Proof.
-    intros Hw key. destruct g as [i|nm i|nm i n|nm k|nm e|nm i e|nm key' e|i|i j|nm e|nm k0 n0|v0 nm c0]; cbn [do_agg writes] in *;
+    intros Hw key. destruct g as [i|nm i|nm i n|nm k|nm e|nm i e|nm key' e|i|i j|nm e|nm k0 n0|v0 nm c0|qs0 nm e]; cbn [do_agg writes] in *;
       try (cbn [fst x with_mx]; first [reflexivity | apply dget_dset_other_dict; intros E0; apply Hw; rewrite E0; reflexivity]).
     - destruct (dget (x mx s) nm (hdr_key l i)) as [[z'|z'|t|]|]; cbn [fst x with_mx]; try reflexivity;
         apply dget_dset_other_dict; intros E0; apply Hw; rewrite E0; reflexivity.
     - destruct (none_like _); reflexivity.
     - destruct (is_blank_text (tally_text l i)); cbn [fst x with_mx]; [reflexivity|].
       apply dget_dset_other_dict; intros E0; apply Hw; rewrite E0; reflexivity.
+    - destruct (Assign.do_assignment _ _ _ _) as [[[|] ?]|]; reflexivity.
   Qed.
 
   Lemma eval_frame c s l d : writes_comp c <> Some d -> forall key, dget (x mx (fst (eval q blanks AND c s l))) d key = dget (x mx s) d key.
@@ -191,20 +192,22 @@ Section CoreRun.
     | CAgg (CounterE v _) | CAct (Agg (CounterE v _)) | CWhen _ (Agg (CounterE v _)) => Some v
     | CAgg (CounterEq v _ _) | CAct (Agg (CounterEq v _ _)) | CWhen _ (Agg (CounterEq v _ _)) => Some v
     | CAgg (CountIf v _ _) | CAct (Agg (CountIf v _ _)) | CWhen _ (Agg (CountIf v _ _)) => Some v
+    | CAgg (AssignQ _ v _) | CAct (Agg (AssignQ _ v _)) | CWhen _ (Agg (AssignQ _ v _)) => Some v
     | _ => None
     end.
 
-  Lemma do_agg_frame_var s l g v : (match g with Counter nm _ | Sum nm _ | CounterE nm _ | CounterEq nm _ _ | CountIf nm _ _ => nm <> v | _ => True end) ->
+  Lemma do_agg_frame_var s l g v : (match g with Counter nm _ | Sum nm _ | CounterE nm _ | CounterEq nm _ _ | CountIf nm _ _ | AssignQ _ nm _ => nm <> v | _ => True end) ->
     lookup v (vars (x mx (fst (do_agg q blanks AND s l g)))) = lookup v (vars (x mx s)).
   Proof.
-    intros Hw. destruct g as [i|nm i|nm i n|nm k|nm e|nm i e|nm key' e|i|i j|nm e|nm k0 n0|v0 nm c0]; cbn [do_agg]; try reflexivity;
+    intros Hw. destruct g as [i|nm i|nm i n|nm k|nm e|nm i e|nm key' e|i|i j|nm e|nm k0 n0|v0 nm c0|qs0 nm e]; cbn [do_agg]; try reflexivity;
       try (cbn [fst x with_mx vars dset]; apply lookup_update_other; exact Hw).
     - destruct (dget (x mx s) nm (hdr_key l i)) as [[z'|z'|t|]|]; reflexivity.
     - destruct (none_like _); cbn [fst x with_mx vars]; apply lookup_update_other; exact Hw.
     - destruct (is_blank_text (tally_text l i)); reflexivity.
+    - destruct (Assign.do_assignment _ _ _ _) as [[[|] ?]|]; cbn [fst x with_mx vars]; try reflexivity. apply lookup_update_other. exact Hw.
   Qed.
 
-  Lemma do_action_frame_var s l a v : (match a with AssignN w _ | AssignS w _ | Pop w _ => w <> v | Agg (Counter w _) | Agg (Sum w _) | Agg (CounterE w _) | Agg (CounterEq w _ _) | Agg (CountIf w _ _) => w <> v | _ => True end) ->
+  Lemma do_action_frame_var s l a v : (match a with AssignN w _ | AssignS w _ | Pop w _ => w <> v | Agg (Counter w _) | Agg (Sum w _) | Agg (CounterE w _) | Agg (CounterEq w _ _) | Agg (CountIf w _ _) | Agg (AssignQ _ w _) => w <> v | _ => True end) ->
     lookup v (vars (x mx (do_action q blanks AND s l a))) = lookup v (vars (x mx s)).
   Proof.
     intros Hw. destruct a as [w e|w e|k e|k e|w k|k e|g]; cbn [do_action].
@@ -250,7 +253,7 @@ Section CoreRun.
     unfold init_vars. induction cs as [|c cs IH]; intros vs; [reflexivity|]. cbn [fold_left]. rewrite IH.
     unfold comp_init. destruct c as [b|a|b a|g]; try reflexivity;
       try (destruct a as [? ?|? ?|? ?|? ?|? ?|? ?|g]; try reflexivity);
-      (destruct g as [i|nm i|nm i n|nm k|nm e|nm i e|nm key' e|i|i j|nm e|nm k0 n0|v0 nm c0]; try reflexivity; cbn [agg_init]; destruct (lookup nm vs); first [reflexivity|apply lookup_app_num]).
+      (destruct g as [i|nm i|nm i n|nm k|nm e|nm i e|nm key' e|i|i j|nm e|nm k0 n0|v0 nm c0|qs0 nm e]; try reflexivity; cbn [agg_init]; destruct (lookup nm vs); first [reflexivity|apply lookup_app_num]).
   Qed.
 
   Definition counter_once (nm k : Z) (cs : list comp) : Prop :=
